@@ -550,3 +550,204 @@ def run_C10(rng, tier):
     run_impl(fc, mode="f64")
     viols += O.c10_dc(fc)
     return finish("C10", "C10", cases, viols, "three runs x, y, a*x+b*y with rational a, b incl. 0 and negatives for the eight linear views: exact superposition at every step; constant streams for the DC gains (exact), 3000-step f64 runs for the limits", {"f64_cases": len(fc)})
+
+# ---------------------------------------------------------------------------------- C12
+AFFINE_INV = ["Hln", "Vsct", "Cti", "Net", "Eft"]
+SCALE_INV = ["Rsi", "MyRsi", "Lrsi", "Vst", "Roc", "Cog", "Entropy", "TrendFlex", "ReFlex", "LnReturn", "Drawdown"]
+SCALE_EQ = ["Min", "Max", "Sma", "Ema", "Alma", "Cumulative", "Welford", "WelfordMean", "Laguerre", "Ss", "Cyber", "Roofing"]
+NEGATE = ["Hln", "Vsct", "Vst", "MyRsi", "Cti", "Net", "TrendFlex", "ReFlex"]
+def run_C12(rng, tier):
+    k = scale(tier)
+    groups = {"affine": [], "scale_inv": [], "scale_eq": [], "negate": [], "rsi_neg": [], "minmax": []}
+    cases = []
+    def pair(kind, d, xs, ys, prm):
+        c1 = Case.simple(d, xs, {"view": d[0], "regime": "base"})
+        c2 = Case.simple(d, ys, {"view": d[0], "regime": kind})
+        groups[kind].append((c1, c2, prm))
+        cases.extend([c1, c2])
+    def stream(d, positive=False):
+        heavy = is_heavy(d)
+        L = 12 if heavy else 18 + rng.below(10)
+        return gen_stream(rng, L, positive=positive or needs_positive(d), grid=1 if heavy else 4)[1]
+    for i in range(26 * k):
+        a = F(1 + rng.below(12), rng.choice([1, 2, 4]))
+        b = F(rng.below(41) - 20, 2)
+        d = mk_view(rng, AFFINE_INV[i % len(AFFINE_INV)], n=(3 + rng.below(6) if AFFINE_INV[i % len(AFFINE_INV)] in ("Cti",) else None))
+        xs = stream(d)
+        pair("affine", d, xs, [a * x + b for x in xs], (a, b))
+        d = mk_view(rng, SCALE_INV[i % len(SCALE_INV)])
+        xs = stream(d)
+        pair("scale_inv", d, xs, [a * x for x in xs], (a, 0))
+        d = mk_view(rng, SCALE_EQ[i % len(SCALE_EQ)])
+        xs = stream(d)
+        pair("scale_eq", d, xs, [a * x for x in xs], (a, 0))
+        d = mk_view(rng, NEGATE[i % len(NEGATE)])
+        xs = stream(d)
+        pair("negate", d, xs, [-x for x in xs], None)
+    for i in range(8 * k):
+        d = mk_view(rng, "Rsi")
+        xs = stream(d)
+        pair("rsi_neg", d, xs, [-x for x in xs], None)
+        n = 1 + rng.below(6)
+        xs = stream(("Min", n, E))
+        c1 = Case.simple(("Min", n, E), xs, {"view": "Min", "regime": "base"})
+        c2 = Case.simple(("Max", n, E), [-x for x in xs], {"view": "Max", "regime": "negated"})
+        groups["minmax"].append((c1, c2, None))
+        cases.extend([c1, c2])
+    # recorded witnesses
+    pair("scale_inv", ("Vst", 1, E), [F(5)], [F(20)], (F(4), 0))                       # W2
+    pair("affine", ("Cti", 5, E), [F(5), F(3)], [F(5) + 7, F(3) + 7], (F(1), F(7)))    # D15
+    run_impl(cases)
+    viols = O.c12(groups)
+    return finish("C12", "C12", cases, viols, "paired runs x vs a*x+b / a*x / -x with rational a>0 and b for every view the property names; exact equality / scaling / negation of the outputs at every step (degenerate flat windows excluded as the property says)")
+
+# ---------------------------------------------------------------------------------- C15
+def run_C15(rng, tier):
+    k = scale(tier)
+    cases = []
+    def add(d, xs, reg):
+        ops = []
+        for x in xs:
+            ops.append(("u", 0, x))
+            if rng.chance(0.3):
+                ops.append(("l", 0))
+        cases.append(Case(d, [("l", 0)] + ops, {"view": d[0], "regime": reg}))
+    regs = ["const", "ties", "signs", "iid", "walk", "const_stretch", "monotone"]
+    for name in ALL_UNARY:
+        lo = WINDOWED.get(name, {"Roofing": 2, "Pfe": 3, "Eft": 2}.get(name, 1))
+        for n in [lo, lo + 1, lo + 2, 5, 9, 17, 33, 64][: (6 if tier == "quick" else 8)]:
+            if is_heavy((name,)) and n > 9:
+                continue
+            d = mk_view(rng, name, n=n)
+            for rep in range(1 * k):
+                reg = rng.choice(regs)
+                L = rng.choice([3, n - 1 if n > 1 else 2, n + 3, 2 * n + 2])
+                L = max(2, min(L, 14 if is_heavy(d) else 70))
+                r, xs = gen_stream(rng, L, reg, positive=name in POSITIVE_ONLY, grid=1 if is_heavy(d) else 4)
+                add(d, xs, r)
+    for i in range(40 * k):
+        name = ALL_UNARY[rng.below(len(ALL_UNARY))]
+        pos = name in POSITIVE_ONLY
+        inner = rng.choice(INNERS_POS if pos else INNERS)
+        d = mk_view(rng, name, inner)
+        r, xs = stream_for(rng, d)
+        if pos or inner[0] == "LnReturn":
+            r, xs = gen_stream(rng, len(xs), positive=True, grid=1 if is_heavy(d) else 4)
+        add(d, xs, r)
+    # constructors must reject what update() cannot handle
+    rejects = [("Cyber", 1, E), ("Cyber", 2, E), ("Pfe", 1, E, E), ("Pfe", 2, E, E), ("Eft", 1, E, E), ("Roofing", 1, 2, E), ("Min", 0, E), ("Max", 0, E), ("Welford", 0, E)]
+    rcases = [Case.simple(d, [1, 2, 3], {"view": d[0], "regime": "ctor-reject"}) for d in rejects]
+    run_impl(cases + rcases)
+    viols = O.c15(cases, rcases, "ex/debug")
+    # f64, debug and release profiles, N up to 64, long-ish streams
+    for prof in ("debug", "release"):
+        fc = [Case(c.desc, c.ops, dict(c.meta, model=False, mode="f64", profile=prof)) for c in cases]
+        for name in ALL_UNARY:
+            lo = WINDOWED.get(name, {"Roofing": 2, "Pfe": 3, "Eft": 2}.get(name, 1))
+            for n in ([lo, 2, 3, 13, 64] if tier == "quick" else list(range(lo, 65, 3))):
+                if n < lo:
+                    continue
+                d = mk_view(rng, name, n=n)
+                r, xs = gen_stream(rng, 200, rng.choice(regs + ["volatile_flat"]), positive=name in POSITIVE_ONLY, grid=8)
+                fc.append(Case.simple(d, xs, {"view": name, "regime": r, "model": False, "mode": "f64", "profile": prof}))
+        run_impl(fc, mode="f64", profile=prof)
+        viols += O.c15(fc, [], "f64/" + prof)
+    return finish("C15", "C15", cases + rcases, viols, "every view (N = minimum, +1, +2, 5, 9, 17, 33, 64) and two-level chains, streams shorter and longer than N, constant / tied / zero streams, last() interleaved at random; exact scalar with debug assertions, then f64 in debug and release profiles; constructor rejection below the minimum",
+                  {"f64_profiles": ["debug", "release"]})
+
+# ---------------------------------------------------------------------------------- C17
+def run_C17(rng, tier):
+    k = scale(tier)
+    cases, lineages = [], []
+    for i in range(70 * k):
+        name = ALL_UNARY[i % len(ALL_UNARY)]
+        pos = name in POSITIVE_ONLY
+        inner = rng.choice([E, E] + (INNERS_POS if pos else INNERS))
+        d = mk_view(rng, name, inner)
+        if i % 7 == 0:
+            d = rng.choice(["Sub", "Mul"]), d, ("Sma", 2, E)
+        heavy = is_heavy(d)
+        steps = 10 if heavy else 22
+        ops, lin = [], [[]]
+        twin = rng.chance(0.3)
+        if twin:
+            ops.append(("c", 0))
+            lin.append([])
+        for s in range(steps):
+            r = rng.below(10)
+            i_ = rng.below(len(lin))
+            if r < 5:
+                x = F(1 + rng.below(80), 1 if heavy else 4) if (pos or inner[0] == "LnReturn") else F(rng.below(81) - 40, 1 if heavy else 4)
+                if twin and s < steps // 2:
+                    for j in range(len(lin)):
+                        ops.append(("u", j, x))
+                        lin[j] = lin[j] + [x]
+                else:
+                    ops.append(("u", i_, x))
+                    lin[i_] = lin[i_] + [x]
+            elif r < 8:
+                for _ in range(1 + rng.below(3)):
+                    ops.append(("l", i_))
+            elif len(lin) < 4:
+                ops.append(("c", i_))
+                lin.append(list(lin[i_]))
+        c = Case(d, ops, {"view": name, "regime": "schedule"})
+        cases.append(c)
+    run_impl(cases)
+    viols, refs = O.c17_prepare(cases)
+    run_impl(refs)
+    viols += O.c17(cases, refs)
+    fc = [Case(c.desc, c.ops, dict(c.meta, model=False, mode="f64")) for c in cases]
+    run_impl(fc, mode="f64")
+    v2, frefs = O.c17_prepare(fc)
+    for r in frefs:
+        r.meta.update(model=False, mode="f64")
+    run_impl(frefs, mode="f64")
+    viols += v2 + O.c17(fc, frefs, f64=True)
+    static = O.c17_static()
+    viols += static
+    return finish("C17", "C17", cases + refs, viols, "random schedules of update / last / clone over up to 4 instances (twin phases where all instances get the same input, repeated last(), divergent continuations); every observation compared with a fresh instance fed that instance's update lineage; exact scalar and f64 bits; static scan of /repo/src for shared or interior-mutable state",
+                  {"schedules": len(cases), "reference_runs": len(refs), "f64_schedules": len(fc)})
+
+# ---------------------------------------------------------------------------------- C18
+def pop_bound(d):
+    """mirror of the proved bound (Proofs/Struct*: pop_bound): elements held in all buffers"""
+    name = d[0]
+    sub = sum(pop_bound(a) for kind, a in zip(ARITY[name], d[1:]) if kind == "v")
+    n = d[1] if len(d) > 1 and isinstance(d[1], int) else 0
+    own = {"Sma": n, "Cumulative": n, "Min": n, "Max": n, "Roc": n, "Welford": n, "WelfordMean": n, "WelfordVar": n, "Vst": n, "Vsct": n,
+           "Hln": n, "Entropy": n, "Cog": n, "Cti": n, "Net": n, "Rsi": n, "MyRsi": n, "Alma": 3 * n, "AlmaCustom": 3 * n, "Cyber": 3 * n,
+           "TrendFlex": n, "ReFlex": n, "Laguerre": 10, "Lrsi": 12, "Pfe": n, "Eft": 2 * n}.get(name, 0)
+    return sub + max(own, 0)
+
+def run_C18(rng, tier):
+    k = scale(tier)
+    cases = []
+    for i in range(3 * len(ALL_UNARY) * k):
+        name = ALL_UNARY[i % len(ALL_UNARY)]
+        pos = name in POSITIVE_ONLY
+        inner = rng.choice([E, E] + (INNERS_POS if pos else INNERS))
+        d = mk_view(rng, name, inner)
+        heavy = is_heavy(d)
+        L = 14 if heavy else 40
+        r, xs = gen_stream(rng, L, positive=(pos or inner[0] == "LnReturn"), grid=1 if heavy else 4)
+        cases.append(Case.simple(d, xs, {"view": name, "regime": r}))
+    run_impl(cases)
+    viols = O.c18_pop(cases, pop_bound)
+    # long f64 runs: population bounded by the proved bound at every step and constant once the window has filled; live heap bytes at L, 2L, 4L
+    fc, mem = [], []
+    for i in range(len(ALL_UNARY) * k):
+        name = ALL_UNARY[i % len(ALL_UNARY)]
+        pos = name in POSITIVE_ONLY
+        inner = rng.choice([E] + (INNERS_POS if pos else INNERS))
+        d = mk_view(rng, name, inner)
+        n = pop_bound(d)
+        L = 300 if tier == "quick" else 3000
+        r, xs = gen_stream(rng, L, "walk", positive=True, grid=8)
+        fc.append(Case.simple(d, xs, {"view": name, "regime": "long", "model": False, "mode": "f64"}))
+        mem.append(d)
+    run_impl(fc, mode="f64")
+    viols += O.c18_pop(fc, pop_bound, long=True)
+    viols += O.c18_mem(mem, 2000 if tier == "quick" else 250000)
+    return finish("C18", "C18", cases, viols, "every view over Echo and over an inner view: number of elements in all buffers of the Debug dump at every step against the proved bound pop_bound(descriptor); long f64 runs: population constant between stream length L/2 and L; live heap bytes of the view at L, 2L, 4L (counting allocator) must not grow",
+                  {"long_f64_runs": len(fc), "heap_measurements": len(mem)})
